@@ -93,7 +93,15 @@ def same(fmt, a, b):
     return a == b
 
 
-def make_class(name, fmts, seed, base_fmts=None):
+def _equal_by_value(self, other):
+    return type(self) is type(other)
+
+
+def _hash_by_value(self):
+    return 29
+
+
+def make_class(name, fmts, seed, base_fmts=None, by_value=False):
     """device class; with `base_fmts` it derives from a base class that declares the
     same variable names with those (other) formats, i.e. the subclass overrides them"""
     from ebpfcat.ebpfcat import Device, DeviceVar
@@ -111,6 +119,10 @@ def make_class(name, fmts, seed, base_fmts=None):
         bases = (base,)
     ns = {"nvars": len(fmts), "fmts": tuple(fmts), "seed": seed, "update": gen_update,
           "cmd": DeviceVar("I", write=True), "ack": DeviceVar("I")}
+    if by_value:
+        # a device class with value semantics: all its instances compare equal
+        ns["__eq__"] = _equal_by_value
+        ns["__hash__"] = _hash_by_value
     for k, f in enumerate(fmts):
         ns[f"pw{k}"] = DeviceVar(f, write=True)
         ns[f"echo{k}"] = DeviceVar(f)
@@ -142,7 +154,11 @@ def run(tape, scenario):
             # a base class declaring some of the names with another (often narrower) format
             base_fmts = [tape.pick("c29/basefmt", ["B", "H", "I", "b", "h", "i"])
                          if tape.chance("c29/override-this", 60) else None for _ in fmts]
-        classes.append(make_class(f"GenDev{c}", fmts, tape.draw("c29/seed", 1000), base_fmts))
+        by_value = tape.chance("c29/devices-equal-by-value", 20)
+        if by_value:
+            world.count("c29/device-class-with-value-equality")
+        classes.append(make_class(f"GenDev{c}", fmts, tape.draw("c29/seed", 1000), base_fmts,
+                                  by_value))
     ninst = 1 + tape.draw("c29/ninst", 4)
     which = [tape.draw("c29/cls", ncls) for _ in range(ninst)]
     rounds = 3 + tape.draw("c29/rounds", 8)
@@ -214,6 +230,17 @@ def run(tape, scenario):
                                   + tape.draw("c29/value2", 1 << 30))
                         setattr(d, f"pw{k}", v)
                         written[(di, k)] = v
+                        if f[-1] in "BHIQbhiq" and tape.chance("c29/refused-write", 12):
+                            # a value the format cannot hold is refused: the variable
+                            # keeps what was written before
+                            bad = 1 << (8 * struct.calcsize(f[-1]) + 1)
+                            bad = tuple(list(v[:-1]) + [bad]) if isinstance(v, tuple) else bad
+                            try:
+                                setattr(d, f"pw{k}", bad)
+                                viol("out-of-range-write-accepted", f"device {di} var {k} "
+                                     f"({f}) = {bad!r} was accepted", fmt=f)
+                            except Exception:
+                                world.count("c29/out-of-range-write-refused")
                         log.update(repr((di, k, v)).encode())
                         sv = parent_shared(f, tape.draw("c29/shared-choice", 2), k, d.seed)
                         setattr(d, f"sh{k}", sv)
